@@ -31,7 +31,7 @@ FLAG = {"GOOD": ".good", "UNKNOWN": ".unknown", "SUSPECT": ".suspect", "FAIL": "
 PYOP = {"add": ".add", "sub": ".sub", "mul": ".mul", "truediv": ".truediv", "pow": ".pow"}
 PIN_PROPS = {"C01": ["flag_codes"], "C04": ["flag_codes", "priorities", "src_qartod_compare"], "C19": ["cf_safe"], "C20": ["fx_ops"], "C08": ["src_climatology_test"],
              "C03": ["defaults_valid", "src_gross_range_test", "src_valid_range_test"], "C09": ["default_spike", "src_spike_test"],
-             "C11": ["default_flat", "src_flat_line_test"], "C12": ["default_atten"], "C14": ["default_location", "src_location_test"],
+             "C11": ["default_flat", "src_flat_line_test"], "C12": ["default_atten", "src_attenuated_signal_test"], "C14": ["default_location", "src_location_test"],
              "C10": ["src_rate_of_change_test", "src_speed_test"], "C13": ["src_density_inversion_test", "src_pressure_increasing_test"]}
 # function bodies translated by harness/translate.py: (Lean theorem about the committed transcription, its binder list, its statement)
 SRC_FUNCS = {
@@ -57,6 +57,10 @@ SRC_FUNCS = {
                          "(periodOf : Period → Int → Int) (ms : List Member) (inp : List V) (ts : List Int) (z : List V) "
                          "(ht : ts.length = inp.length) (hz : z.length = inp.length)",
                          "IoosQc.Gen.climatology_test periodOf ms inp ts z = climatologyTest periodOf ms inp ts z", "periodOf ms inp ts z ht hz"),
+    "attenuated_signal_test": ("IoosQc.NpSrc.C12_src_atten",
+                               "(inp : List V) (ts : List Int) (sus fail : Rat) (period : Option Rat) (minObs : Option Nat) (minPeriod : Option Rat) (checkType : String)",
+                               "IoosQc.Gen.attenuated_signal_test inp ts sus fail period minObs minPeriod checkType = "
+                               "attenuatedTest checkType inp ts sus fail period minObs minPeriod", "inp ts sus fail period minObs minPeriod checkType"),
     "valid_range_test": ("IoosQc.NpSrc.C03_src_valid", "(inp : List V) (span : V × V) (si ei : Bool) (junk : List Np.Fl)",
                          "IoosQc.Gen.valid_range_test inp span si ei junk = validRange span.1 span.2 si ei inp", "inp span si ei junk"),
 }
@@ -297,14 +301,15 @@ def lean_for(table: str, val) -> tuple[str, str]:
 def _kernel_check(prop: str, tag: str, parts, finals) -> dict:
     """Write the generated Lean file, let the kernel check it (cached by content), return status / axioms / log."""
     text = ("/- generated by harness/extract.py from the current source of ioos_qc; checked with `lake env lean` -/\n"
-            "import IoosQc.Theorems.SourcePin\nimport IoosQc.Theorems.NpSrc\nimport IoosQc.Theorems.NpSrc2\nimport IoosQc.Theorems.NpSrc3\nimport IoosQc.Theorems.NpSrc4\nimport IoosQc.Theorems.NpSrc5\nopen IoosQc\n\n" + "\n".join(parts) + "\n"
+            "import IoosQc.Theorems.SourcePin\nimport IoosQc.Theorems.NpSrc\nimport IoosQc.Theorems.NpSrc2\nimport IoosQc.Theorems.NpSrc3\nimport IoosQc.Theorems.NpSrc4\nimport IoosQc.Theorems.NpSrc5\nimport IoosQc.Theorems.NpSrc6\nopen IoosQc\n\n" + "\n".join(parts) + "\n"
             + "".join(f"#print axioms {f}\n" for f in finals))
     sha = hashlib.sha1(text.encode()).hexdigest()[:16]
     # the key also covers the compiled libraries the file is checked against
     stamp = "".join(hashlib.sha1(o.read_bytes()).hexdigest()[:8] if o.exists() else "nobuild"
                     for o in (LEAN / ".lake/build/lib/lean/IoosQc/Theorems/SourcePin.olean", LEAN / ".lake/build/lib/lean/IoosQc/Theorems/NpSrc.olean",
                               LEAN / ".lake/build/lib/lean/IoosQc/Theorems/NpSrc2.olean", LEAN / ".lake/build/lib/lean/IoosQc/Theorems/NpSrc3.olean",
-                              LEAN / ".lake/build/lib/lean/IoosQc/Theorems/NpSrc4.olean", LEAN / ".lake/build/lib/lean/IoosQc/Theorems/NpSrc5.olean"))
+                              LEAN / ".lake/build/lib/lean/IoosQc/Theorems/NpSrc4.olean", LEAN / ".lake/build/lib/lean/IoosQc/Theorems/NpSrc5.olean",
+                              LEAN / ".lake/build/lib/lean/IoosQc/Theorems/NpSrc6.olean"))
     d = LEAN / ".lake" / "pins"
     d.mkdir(parents=True, exist_ok=True)
     f = d / f"{prop}{tag}_{sha}.lean"
